@@ -58,6 +58,27 @@ def is_seeded(fn, e, selfn, at, depth=4):
     return False
 
 
+def counter_handback(ctx, rid):
+    """Every PCSO relational method that merges a helper PCBO's terms into the model also takes the helper's ancilla
+    counter back (before or with the merge), on every path - also when the helper is used as an expression."""
+    P, R = ctx.prog, ctx.res
+    for rel, fn in C02.rel_methods(P, 'PCSO').items():
+        selfn = R.self_name(fn)
+        g = cfg_of(fn.node)
+        merges = [n for n in g.stmts() if isinstance(n, ast.AugAssign) and is_name(n.target, selfn)]
+        syncs = [n for n in g.stmts() if isinstance(n, ast.Assign) and any(src(t) == '%s._ancilla' % selfn for t in n.targets)
+                 and isinstance(n.value, ast.Attribute) and n.value.attr in ('_ancilla', 'num_ancillas')
+                 and not is_name(n.value.value, selfn)]
+        ok = bool(merges) and bool(syncs)
+        for m in merges:
+            ok = ok and (g.dominates(syncs, m) or g.must_pass_to_exit(m, set(syncs)))
+        ctx.inst(rid, fn, syncs[0] if syncs else (merges[0] if merges else 'def %s' % fn.name), ok,
+                 "counter taken back from the helper on every merging path" if ok else
+                 "%s merges the helper's penalty but does not write the helper's ancilla counter back to %s._ancilla on every "
+                 "such path: the ancillas it added are not counted, and the next constraint hands their names out again"
+                 % (fn.name, selfn))
+
+
 def counter_handback_source(ctx, rid):
     """Whatever is written back into self._ancilla by a PCSO constraint method is the counter of a helper that was
     seeded with self's counter (`_empty_pcbo(self)`): a fresh PCBO() would hand back a counter that restarts at 0."""
